@@ -14,7 +14,7 @@ RULE = ("exhaustive part: for each of the ten named groups all elements and all 
         "parameters) and all 720 orders of calling 6 group constructors + all pairs of the ten (cache purity); "
         "generated part: group x conforming cell x uniform rotation x EVERY group element applied beforehand -> "
         "find_uniq_u invariance, orbit membership, idempotence, maximal trace, unchanged score on exact lattice "
-        "g-vectors; find_uniq_hkls on integer hkl |h|<400 likewise; non-trivial = group order >= 2 and a generic "
+        "g-vectors; find_uniq_hkls on integer hkl |h|<400 likewise; grid_index_parallel.uniq_grain_list: each grain presented in every symmetry-equivalent setting (slightly perturbed) must be recognised as one grain; non-trivial = group order >= 2 and a generic "
         "(non-special) rotation; trace ties are counted and only required to return a maximiser")
 ASSUMPTIONS = ["conforming cells are the standard settings used by refinegrains (hexagonal axes gamma=120 for "
                "hexagonal/trigonal, a=b=c alpha=beta=gamma for rhombohedralP, unique axis a/b/c for monoclinic_a/b/c)",
@@ -258,6 +258,79 @@ def check_hkl(case, rec=None):
     return fails
 
 
+# ----------------------------------------------------------------- duplicate detection by symmetry (grid indexing)
+
+@st.composite
+def uniqcases(draw):
+    name = draw(st.sampled_from(sorted(GROUPS)))
+    p = draw(cellpars())
+    seed = draw(st.integers(0, 2 ** 31 - 1))
+    nbase = draw(st.integers(1, 4))
+    return dict(group=name, p=p, seed=seed, nbase=nbase)
+
+
+def small_rotation(rng, max_deg):
+    ax = rng.standard_normal(3)
+    ax /= np.linalg.norm(ax)
+    a = np.radians(rng.uniform(-max_deg, max_deg))
+    K = np.array([[0, -ax[2], ax[1]], [ax[2], 0, -ax[0]], [-ax[1], ax[0], 0]])
+    return np.eye(3) + np.sin(a) * K + (1 - np.cos(a)) * (K @ K)
+
+
+def check_uniq(case, rec=None):
+    import io, contextlib
+    from ImageD11 import sym_u, grain, grid_index_parallel
+    name = case["group"]
+    ops = [np.asarray(o, float) for o in getattr(sym_u, name)().group]
+    cell = conforming_cell(name, case["p"])
+    B = gens.busing_levy_B(cell)
+    rng = np.random.RandomState(case["seed"] % (2 ** 32))
+    tolangle, toldist = 0.5, 50.0
+    glist, truth = [], []
+    for k in range(case["nbase"]):
+        U = gens.rotation_from_seed(int(rng.randint(0, 2 ** 31 - 1)))
+        t = rng.uniform(-300, 300, 3) + 1000.0 * k          # base grains far apart in space
+        ubi = np.linalg.inv(U @ B)
+        glist.append(grain.grain(ubi, t))
+        truth.append(k)
+        for o in ops:                                       # the same grain found again in another setting
+            dR = small_rotation(rng, 0.2)
+            u2 = o @ np.linalg.inv(dR @ U @ B)
+            glist.append(grain.grain(u2, t + rng.uniform(-10, 10, 3)))
+            truth.append(k)
+    nd = case["nbase"]
+    for k in range(case["nbase"]):                          # a different grain at the same place, 2-5 degrees away
+        ax = rng.standard_normal(3)
+        ax /= np.linalg.norm(ax)
+        a = np.radians(rng.uniform(2, 5))
+        K = np.array([[0, -ax[2], ax[1]], [ax[2], 0, -ax[0]], [-ax[1], ax[0], 0]])
+        R = np.eye(3) + np.sin(a) * K + (1 - np.cos(a)) * (K @ K)
+        o = ops[rng.randint(len(ops))]
+        glist.append(grain.grain(o @ glist[k * (len(ops) + 1)].ubi @ R.T, glist[k * (len(ops) + 1)].translation.copy()))
+        nd += 1
+    order = rng.permutation(len(glist))
+    fails = []
+    with contextlib.redirect_stdout(io.StringIO()):
+        ok, ul = guard(grid_index_parallel.uniq_grain_list, name, toldist, tolangle,
+                       [glist[i] for i in order])
+    if not ok:
+        return [exc_failure("uniq_grain_list", ul)]
+    if len(ul.uniqgrains) < nd:
+        fails.append(fail("uniq", "uniq_grain_list(%s) keeps %d grains for %d distinct ones: a grain 2-5 degrees away from "
+                          "another one at the same position was merged into it (tolangle 0.5)" % (name, len(ul.uniqgrains), nd),
+                          group=name))
+    elif len(ul.uniqgrains) != nd:
+        fails.append(fail("uniq", "uniq_grain_list(%s) keeps %d grains for %d distinct grains presented in all "
+                          "their %d symmetry-equivalent settings" % (name, len(ul.uniqgrains), nd, len(ops)),
+                          group=name))
+    elif sum(g.nfound for g in ul.uniqgrains) != len(glist):
+        fails.append(fail("uniq", "uniq_grain_list(%s) nfound counts %s do not add up to %d" %
+                          (name, [g.nfound for g in ul.uniqgrains], len(glist)), group=name))
+    if rec is not None:
+        rec.case(case, len(ops) >= 2, ["uniq:" + name])
+    return fails
+
+
 REG_CELLS = [dict(a=3.0, b=4.0, c=5.0, al=80.0, be=100.0, ga=110.0, tric=[3., 4., 5., 80., 100., 110.])]
 
 
@@ -282,6 +355,7 @@ def run_shard(rec):
     run_cases(rec, "purity", orders, lambda o: check_purity(o, rec))
     hyp_run(rec, "reduce_ubi", ubicases(), lambda c: check_ubi(c, rec), max_examples=300 if quick else 2500)
     hyp_run(rec, "reduce_hkl", hklcases(), lambda c: check_hkl(c, rec), max_examples=150 if quick else 1500)
+    hyp_run(rec, "uniq_grains", uniqcases(), lambda c: check_uniq(c, rec), max_examples=40 if quick else 400)
 
 
 def replay(sub, case, rec):
@@ -291,4 +365,6 @@ def replay(sub, case, rec):
         return check_purity(case, rec)
     if sub == "reduce_hkl":
         return check_hkl(case, rec)
+    if sub == "uniq_grains":
+        return check_uniq(case, rec)
     return check_ubi(case, rec)
